@@ -306,6 +306,19 @@ func RunC20Seq[V comparable](c *core.Ctx, et ElemType[V], kind string, maxQueue 
 		c.Cover("undocumented-form-skipped")
 		return
 	}
+	argsBefore := append([]any{}, args...)
+	defer func() {
+		// the caller's argument list is the caller's
+		if x.bad {
+			return
+		}
+		for i := range args {
+			if len(args) != len(argsBefore) || !SameAny(args[i], argsBefore[i]) {
+				x.fail(sig+"/arguments-changed", "the call rewrote the argument list it was given: %v, was %v", args, argsBefore)
+				return
+			}
+		}
+	}()
 	pan, noret, msg := Try(func() {
 		switch kind {
 		case "Array":
@@ -555,7 +568,18 @@ func RunC20Association[K comparable, V comparable](c *core.Ctx, kt ElemType[K], 
 	args, npos := withNotation(r, k, v)
 	x.cs["notation"] = npos
 	var got col.AssociationLike[K, V]
+	argsBefore := append([]any{}, args...)
 	if !try2(x, "Association/"+sameness(kt.Name, vt.Name), func() { got = mod.Association[K, V](args...) }) {
+		return
+	}
+	// the caller's argument list is the caller's: unchanged, and good for a second call
+	for i := range args {
+		if len(args) != len(argsBefore) || !SameAny(args[i], argsBefore[i]) {
+			x.fail("Association/arguments-changed", "the call rewrote the argument list it was given: %v, was %v", args, argsBefore)
+			return
+		}
+	}
+	if !try2(x, "Association/"+sameness(kt.Name, vt.Name)+"/second-call-with-the-same-arguments", func() { got = mod.Association[K, V](args...) }) {
 		return
 	}
 	if got.GetKey() != k || any(got.GetValue()) != any(v) {
@@ -735,4 +759,14 @@ func ReproNilLiteral() (bool, string) {
 		return true, fmt.Sprintf("List[any](\"[nil, 1](List)\") = %#v", got)
 	}
 	return false, "List[any](\"[nil, 1](List)\") = [nil 1]"
+}
+
+// SameAny: identity / equality of two argument values without panicking on uncomparable ones.
+func SameAny(a, b any) (same bool) {
+	defer func() {
+		if recover() != nil {
+			same = fmt.Sprintf("%p", a) == fmt.Sprintf("%p", b)
+		}
+	}()
+	return a == b
 }
